@@ -55,11 +55,13 @@ Lemma cmodel_ok_run c : cmodel_ok c = true ->
 Proof.
   unfold cmodel_ok. intro H. apply andb_true_iff in H as [_ H].
   destruct (cc_trace c) as [tr|]; [|discriminate].
-  destruct (crun c tr) as [s|] eqn:R; [|discriminate].
-  unfold crun in R. destruct (cc_weak c).
+  destruct (crun2 c tr) as [[s upw]|] eqn:R; [|discriminate].
+  unfold crun2 in R. destruct (cc_weak c).
   - destruct (forallb observable tr) eqn:O; [|discriminate].
-    destruct (wrun_sound _ _ _ _ O R) as (full & S & P). exists tr, full, s. auto.
-  - exists tr, tr, s. split; [reflexivity|]. split; [apply run_steps; exact R | reflexivity].
+    destruct (wrunf (tables_shape (cc_grace c)) (cinit c) tr) as [[full s1]|] eqn:W; [|discriminate].
+    inversion R; subst. destruct (wrunf_sound _ _ _ _ _ O W) as (S & P). exists tr, full, s. auto.
+  - destruct (run (tables_shape (cc_grace c)) (cinit c) tr) as [s1|] eqn:R1; [|discriminate]. inversion R; subst.
+    exists tr, tr, s. split; [reflexivity|]. split; [apply run_steps; exact R1 | reflexivity].
 Qed.
 
 (* ---- the model meets the oracle ---- *)
